@@ -14,6 +14,7 @@ package main
 import (
 	"fmt"
 	"net"
+	"os"
 	"runtime"
 	"sort"
 	"strings"
@@ -22,8 +23,10 @@ import (
 	"time"
 
 	. "verifharness/lib"
+	"verifharness/nfsx"
 	"verifharness/specfs"
 
+	"github.com/absfs/absfs"
 	"github.com/absfs/absnfs"
 )
 
@@ -35,6 +38,67 @@ func init() {
 		NonTrivial: func(c *Case) bool { return c.Tags["enacted"] > 0 && (c.Tags["limit_rejections"] > 0 || c.Tags["reaped"] > 0 || c.Tags["churn_conns"] > 0) },
 		ShardSize:  60,
 	}
+}
+
+// ---------- backend wrapper: requests held inside a backend call ----------
+// hfs counts the backend calls in flight on the paths /h<i>... and can hold the first call on such a path for a while
+// (a slow filesystem).  late counts modifying backend operations executed after the driver marked the shutdown call
+// (Stop / Close / Unexport) as returned.
+type hfs struct {
+	*specfs.FS
+	inflight int64
+	returned int32
+	late     int64
+	mu       sync.Mutex
+	hold     map[string]time.Duration // path -> how long its next backend call is held
+}
+
+func heldPath(p string) bool { return strings.HasPrefix(p, "/h") }
+func (h *hfs) enter(p string) func() {
+	if !heldPath(p) {
+		return func() {}
+	}
+	atomic.AddInt64(&h.inflight, 1)
+	h.mu.Lock()
+	d := h.hold[p]
+	delete(h.hold, p)
+	h.mu.Unlock()
+	if d > 0 {
+		time.Sleep(d)
+	}
+	return func() { atomic.AddInt64(&h.inflight, -1) }
+}
+func (h *hfs) Lstat(p string) (os.FileInfo, error) { defer h.enter(p)(); return h.FS.Lstat(p) }
+func (h *hfs) Stat(p string) (os.FileInfo, error)  { defer h.enter(p)(); return h.FS.Stat(p) }
+func (h *hfs) Mkdir(p string, m os.FileMode) error { defer h.enter(p)(); return h.FS.Mkdir(p, m) }
+func (h *hfs) OpenFile(p string, f int, m os.FileMode) (absfs.File, error) {
+	defer h.enter(p)()
+	return h.FS.OpenFile(p, f, m)
+}
+func (h *hfs) afterOp(c specfs.Call) {
+	if heldPath(c.Path) && c.Mutating() && atomic.LoadInt32(&h.returned) == 1 {
+		atomic.AddInt64(&h.late, 1)
+	}
+}
+
+// goroutines serving a request: the per-call goroutine of HandleCall and everything below the dispatchers
+func requestGoroutines() int {
+	buf := make([]byte, 1<<20)
+	for {
+		n := runtime.Stack(buf, true)
+		if n < len(buf) {
+			buf = buf[:n]
+			break
+		}
+		buf = make([]byte, 2*len(buf))
+	}
+	cnt := 0
+	for _, g := range strings.Split(string(buf), "\n\n") {
+		if strings.Contains(g, "absnfs.(*NFSProcedureHandler).HandleCall") || strings.Contains(g, "absnfs.(*NFSProcedureHandler).handleNFSCall") {
+			cnt++
+		}
+	}
+	return cnt
 }
 
 // ---------- client connection ----------
@@ -138,6 +202,9 @@ type sched17 struct {
 	mass    int  // connections opened concurrently and kept open right before Stop (closeAllConnections races their goroutines)
 	closing []string
 	files   int
+	held    int    // requests held inside a backend call when the shutdown call is made (0 = none)
+	heldEnd string // stop | close | unexport
+	holdMs  int    // how long the backend call is held
 }
 
 type drv17 struct {
@@ -484,7 +551,9 @@ func runC17(s sched17, kind string, idx int) Case {
 	enacted := true
 	why := ""
 	base := serverGoroutines()
-	nfs, err := absnfs.New(fs, opts)
+	hf := &hfs{FS: fs, hold: map[string]time.Duration{}}
+	fs.AfterOp = hf.afterOp
+	nfs, err := absnfs.New(hf, opts)
 	var d *drv17
 	var after []string
 	var aftertxt []string
@@ -546,6 +615,144 @@ func runC17(s sched17, kind string, idx int) Case {
 		obs := func(kind int, xs ...uint64) {
 			after = append(after, CPair(CN(uint64(kind)), CNs(xs)))
 			aftertxt = append(aftertxt, fmt.Sprintf("after%d%v", kind, xs))
+		}
+		// ----- requests held in the backend when Stop / Close / Unexport is called (oracle only) -----
+		if d.enacted && !stopped && s.held > 0 {
+			rootH, _ := nfs.VerifLTSHandleFor("/")
+			hold := time.Duration(s.holdMs) * time.Millisecond
+			var hconns []*cconn
+			for i := 1; i <= s.held; i++ {
+				cc, err := dialFrom("", d.port)
+				if err != nil {
+					d.fail("dial (held): " + err.Error())
+					break
+				}
+				if ok, _ := cc.null(3 * time.Second); !ok {
+					cc.c.Close()
+					continue // refused at the connection limit: this one cannot carry a request
+				}
+				hconns = append(hconns, cc)
+				name := fmt.Sprintf("h%d", i)
+				if i%3 != 2 {
+					// created only now, so that neither the attribute cache nor the cached root listing knows it
+					if f, err := fs.Create("/" + name); err == nil {
+						f.Close()
+					}
+				}
+				var proc uint32
+				var body []byte
+				switch i % 3 {
+				case 1: // LOOKUP of a file nobody has looked up yet: allocates a handle when the backend answers
+					proc, body = 3, (&nfsx.Req{Proc: "LOOKUP", H: rootH, Name: []byte(name)}).Encode()
+					hf.hold["/"+name] = hold
+				case 2: // MKDIR: a backend mutation when the held call resumes
+					mode := uint32(0755)
+					proc, body = 9, (&nfsx.Req{Proc: "MKDIR", H: rootH, Name: []byte(name + "d"), Sa: nfsx.Sattr{Mode: &mode}}).Encode()
+					hf.hold["/"+name+"d"] = hold
+				default: // WRITE
+					fh, _ := nfs.VerifLTSHandleFor("/" + name)
+					proc, body = procWrite, writeBody(fh, 0, []byte("late"))
+					hf.hold["/"+name] = hold
+				}
+				cc.xid++
+				if err := sendCall(cc.c, cc.xid, progNFS, versNFS, proc, body); err != nil {
+					d.fail("send (held): " + err.Error())
+				}
+			}
+			nheld := len(hconns)
+			for dl := time.Now().Add(3 * time.Second); d.enacted && atomic.LoadInt64(&hf.inflight) < int64(nheld); {
+				if time.Now().After(dl) {
+					d.fail("held requests did not reach the backend")
+				}
+				time.Sleep(500 * time.Microsecond)
+			}
+			if d.enacted && nheld > 0 {
+				tags["held_requests"] = nheld
+				tags["held_"+s.heldEnd]++
+				time.Sleep(time.Duration(5+s.holdMs%20) * time.Millisecond)
+				type res struct {
+					ok bool
+				}
+				done := make(chan res, 1)
+				go func() {
+					var err error
+					switch s.heldEnd {
+					case "close":
+						err = nfs.Close()
+					case "unexport":
+						err = nfs.Unexport()
+					default:
+						err = d.srv.Stop()
+					}
+					atomic.StoreInt32(&hf.returned, 1)
+					done <- res{err == nil}
+				}()
+				var r res
+				select {
+				case r = <-done:
+				case <-time.After(12 * time.Second):
+					d.fail("shutdown call did not return within 12 s")
+				}
+				if d.enacted {
+					inflightRet := atomic.LoadInt64(&hf.inflight)
+					h1, a1, d1 := nfs.VerifLTSCounts()
+					// grace for goroutines that have delivered their result and are unwinding
+					rg, sg := 0, 0
+					for i := 0; i < 100; i++ {
+						rg, sg = requestGoroutines(), serverGoroutines()-d.baseGor
+						if (rg <= 0 && sg <= 0) || atomic.LoadInt64(&hf.inflight) > 0 {
+							break
+						}
+						time.Sleep(500 * time.Microsecond)
+					}
+					if sg < 0 {
+						sg = 0
+					}
+					cnt, act := d.srv.VerifLTSConnCounts()
+					// quiescence: every held backend call has come back (generous bound), then a little longer
+					for dl := time.Now().Add(hold + 4*time.Second); atomic.LoadInt64(&hf.inflight) > 0 && time.Now().Before(dl); {
+						time.Sleep(time.Millisecond)
+					}
+					for dl := time.Now().Add(2 * time.Second); requestGoroutines() > 0 && time.Now().Before(dl); {
+						time.Sleep(time.Millisecond)
+					}
+					time.Sleep(20 * time.Millisecond)
+					h2, a2, d2 := nfs.VerifLTSCounts()
+					nz := func(x int) uint64 {
+						if x < 0 {
+							return 0
+						}
+						return uint64(x)
+					}
+					late := atomic.LoadInt64(&hf.late)
+					if s.heldEnd == "stop" {
+						// [ok; in flight at return; request goroutines; server goroutines; connCount; len(activeConns); late mutations]
+						obs(5, bn(r.ok), uint64(inflightRet), uint64(rg), uint64(sg), nz(cnt), uint64(act), uint64(late))
+					} else {
+						k := 6
+						if s.heldEnd == "unexport" {
+							k = 7
+						}
+						// [ok; in flight at return; request goroutines; server goroutines; handles, attr, dir at return;
+						//  handles, attr, dir after quiescence; late mutations; export server still attached]
+						obs(k, bn(r.ok), uint64(inflightRet), uint64(rg), uint64(sg), nz(h1), nz(a1), nz(d1), nz(h2), nz(a2), nz(d2),
+							uint64(late), bn(nfs.VerifLTSExportServer() != nil))
+					}
+					switch s.heldEnd {
+					case "close":
+						nfsOps = append(nfsOps, "NClose")
+					case "unexport":
+						nfsOps = append(nfsOps, "NUnexport")
+					}
+					if inflightRet > 0 {
+						tags["returned_with_backend_call_in_flight"]++
+					}
+				}
+				stopped = true
+			}
+			for _, cc := range hconns {
+				cc.c.Close()
+			}
 		}
 		// ----- racy part -----
 		if d.enacted && !stopped && s.churn > 0 {
@@ -800,6 +1007,12 @@ func genC17(r *Rand, idx int, tier string) Case {
 			s.max = 0 // the default limit of 100: all of them are registered when Stop closes them
 		}
 	}
+	if s.churn == 0 && len(s.acts) > 0 && s.acts[len(s.acts)-1].kind == "stop" && r.Chance(45) {
+		// instead of the quiet Stop: requests are inside a backend call when the server is shut down
+		s.acts = s.acts[:len(s.acts)-1]
+		s.held, s.heldEnd, s.holdMs = 1+r.Intn(3), PickStr(r, "stop", "stop", "close", "unexport"), 300+r.Intn(400)
+		kind = "exact+held-" + s.heldEnd
+	}
 	s.closing = [][]string{{"close", "close"}, {"close", "unexport", "stop"}, {"unexport", "close", "close"}, {"stop", "close", "unexport", "close"},
 		{"unexport", "activity", "unexport", "close"}, {"unexport", "unexport", "activity", "close", "close"},
 		{"stop", "unexport", "activity", "unexport", "activity", "close"}}[r.Intn(7)]
@@ -816,5 +1029,12 @@ func corpusC17() []Case {
 		{kind: "tick", adv: 45 * ms}, {kind: "stop"}}, closing: []string{"unexport", "activity", "unexport", "close"}}
 	churn := sched17{max: 3, idleNs: 3600000 * ms, files: 3, acts: []act17{{kind: "open"}}, churn: 8, rounds: 6, stopMid: true,
 		closing: []string{"close", "close"}}
-	return []Case{runC17(limit, "limit-reap-stop", 0), runC17(filt, "filter-reap-stop", 1), runC17(churn, "churn-stop-mid-burst", 2)}
+	heldStop := sched17{max: 3, idleNs: 3600000 * ms, files: 1, acts: []act17{{kind: "open"}}, held: 2, heldEnd: "stop", holdMs: 400,
+		closing: []string{"close", "close"}}
+	heldClose := sched17{max: 3, idleNs: 3600000 * ms, files: 1, acts: []act17{{kind: "open"}}, held: 1, heldEnd: "close", holdMs: 500,
+		closing: []string{"close", "unexport"}}
+	heldUnexp := sched17{max: 5, idleNs: 3600000 * ms, files: 0, acts: nil, held: 3, heldEnd: "unexport", holdMs: 350,
+		closing: []string{"unexport", "close"}}
+	return []Case{runC17(limit, "limit-reap-stop", 0), runC17(filt, "filter-reap-stop", 1), runC17(churn, "churn-stop-mid-burst", 2),
+		runC17(heldStop, "held-stop", 3), runC17(heldClose, "held-close", 4), runC17(heldUnexp, "held-unexport", 5)}
 }
